@@ -291,11 +291,11 @@ def gumbel_sigmoid_old(logits, tau=1.0, hard=False, threshold=0.5):
                    Gumbel(0, 1).sample(logits.shape).to(logits.device)
     
     # Apply the reparameterization trick
-    y_soft = torch.sigmoid((logits + gumbel_noise) / tau)
+    y_soft = torch.sigmoid((logits + gumbel_noise) / _representable_tau(tau, logits))
 
     if hard:
-        # Straight-Through Estimator
-        y_hard = (y_soft > threshold).float()
+        # Straight-Through Estimator (the comparison is made before the sigmoid rounds, as in gumbel_sigmoid)
+        y_hard = _hard_cut(logits + gumbel_noise, y_soft, tau, threshold)
         return (y_hard - y_soft).detach() + y_soft
     
     return y_soft
@@ -309,24 +309,33 @@ def gumbel_sigmoid(logits, tau=1.0, hard=False, threshold=0.5):
     if not 0 < tau < math.inf:
         raise ValueError("Temperature must be positive and finite")
 
-    # Logistic(0,1) noise from uniform: log(U) - log(1-U)
-    U = torch.rand_like(logits)
+    # Logistic(0,1) noise from uniform: log(U) - log(1-U), drawn in float32 at least (see _noise_dtype)
+    U = torch.rand_like(logits, dtype=_noise_dtype(logits))
     logistic_noise = torch.log(U + 1e-20) - torch.log(1 - U + 1e-20)
+    z = logits.to(U.dtype) + logistic_noise
 
     # Soft sample
-    y_soft = torch.sigmoid((logits + logistic_noise) / _representable_tau(tau, logits))
+    y_soft = torch.sigmoid(z / _representable_tau(tau, z)).to(logits.dtype)
 
     if hard:
-        # Straight-through estimator. y_soft > threshold  <=>  logits + noise > tau * logit(threshold); comparing there is
-        # exact, whereas the rounded sigmoid is exactly 0.5 for small positive (logits + noise) / tau (large temperatures)
-        if 0.0 < threshold < 1.0:
-            cut = tau * (math.log(threshold) - math.log1p(-threshold))
-            y_hard = ((logits + logistic_noise) > cut).float()
-        else:
-            y_hard = (y_soft > threshold).float()
+        y_hard = _hard_cut(z, y_soft, tau, threshold)
         return (y_hard - y_soft).detach() + y_soft
 
     return y_soft
+
+def _noise_dtype(logits):
+    # 16-bit uniforms are exactly 0 once in a few hundred (bfloat16) or thousand (float16) draws, where the noise is -inf, and the
+    # float16 exponential variate is exactly 0 once in 4e7 draws (noise +inf, a NaN row): the noise of a converted layer is drawn
+    # and added in float32
+    return torch.float32 if logits.dtype in (torch.float16, torch.bfloat16) else logits.dtype
+
+def _hard_cut(z, y_soft, tau, threshold):
+    # Straight-through estimator. sigmoid(z / tau) > threshold  <=>  z > tau * logit(threshold); comparing there is exact,
+    # whereas the rounded sigmoid is exactly 0.5 for small positive z / tau (large temperatures)
+    if 0.0 < threshold < 1.0:
+        cut = tau * (math.log(threshold) - math.log1p(-threshold))
+        return (z > cut).float()
+    return (y_soft > threshold).float()
 
 def _check_temperature(tau):
     # tau = 0 gives NaN, tau < 0 prefers the least likely gate, NaN propagates: none of them is a temperature
@@ -355,9 +364,9 @@ def gumbel_softmax(logits, tau=1.0, hard=False):
     for large temperatures (its argmax is then always gate 0) and is NaN when (logits + noise) / tau overflows.
     """
     _check_temperature(tau)
-    gumbels = -torch.empty_like(logits, memory_format=torch.legacy_contiguous_format).exponential_().log()
-    z = logits + gumbels
-    y_soft = _softmax_tau(z, tau)
+    gumbels = -torch.empty_like(logits, dtype=_noise_dtype(logits), memory_format=torch.legacy_contiguous_format).exponential_().log()
+    z = logits.to(gumbels.dtype) + gumbels
+    y_soft = _softmax_tau(z, tau).to(logits.dtype)
     if hard:
         index = z.max(-1, keepdim=True)[1]
         y_hard = torch.zeros_like(logits, memory_format=torch.legacy_contiguous_format).scatter_(-1, index, 1.0)
